@@ -51,6 +51,8 @@ def blocks_close(x, y) -> bool:
 def main(ck: Check):
     rng = ck.rng
     n_cases = 40 if ck.tier == "quick" else 600
+    lean = ck.locked()
+    lean.__enter__()
     ok_gen = ck.regenerate(["core"])
     proved = ok_gen and ck.prove("Simaple.Props.C11")
     if ck.tier == "thorough" and proved:
@@ -103,6 +105,7 @@ def main(ck: Check):
         if i < 2:
             samples.append({"op": "Stat.__add__", "a": {k: str(v) for k, v in a.items() if v}, "b": {k: str(v) for k, v in b.items() if v}})
     res = ck.driver(reqs)
+    lean.__exit__(None, None, None)
     disagreements = 0
     seen_ops = {}
     if res is not None:
